@@ -1,7 +1,7 @@
 (* Property C17 -- statements only: termination, no invention, and the exact split (round trip) for variable-length integers, field
    programs, frames and whole payloads. *)
 From Coq Require Import ZArith List Bool Lia.
-Require Import PyLib Varint QuicFrames FrameTable C17P C17RoundP.
+Require Import PyLib Varint QuicFrames FrameTable C17P C17RoundP C17AllP.
 Import ListNotations.
 Open Scope Z_scope.
 
@@ -61,3 +61,58 @@ Proof.
   split; [|vm_compute; reflexivity].
   cbn [frames_ok]. repeat split; try reflexivity; try discriminate; unfold wok; try lia; auto.
 Qed.
+
+(* ---- every frame class ---- *)
+(* the general statement: a payload that is a sequence of frame encodings, each of which the parser reads back as its frame whenever what
+   follows satisfies the frame's condition (anything; nothing, for a frame that reads to the end of the packet; not a zero byte, for a
+   PADDING run), parses to exactly those frames in order *)
+Theorem C17_payload_roundtrip_all : forall l, goods frame_table l -> parse_frames frame_table (concat (map enc_of l)) = Ok (map snd l).
+Proof. exact (payload_roundtrip_all frame_table). Qed.
+Print Assumptions C17_payload_roundtrip_all.
+
+(* ... and every class of the table yields such encodings.  ACK: largest, delay, range count, first range in any legal width, any number
+   of (gap, range) pairs, and the three ECN counts exactly when the type is 3 *)
+Theorem C17_ack_roundtrip : forall t la wla dl wdl wc fr wfr pl ecn,
+  dispatch frame_table t None = Some CAck -> vok la wla -> vok dl wdl -> vok (Z.of_nat (length pl)) wc -> vok fr wfr -> Forall rng_ok pl -> ecn_ok t ecn ->
+  let fs := ack_fields la wla dl wdl wc fr wfr pl ecn in
+  good frame_table anything (t :: enc_fs fs) {| f_cls := CAck; f_type := t; f_len := 1 + len (enc_fs fs); f_ints := ints_of fs; f_datas := [] |}.
+Proof. exact (good_ack frame_table). Qed.
+Print Assumptions C17_ack_roundtrip.
+
+(* PADDING: a run of n+1 zero bytes is one frame of that length when the next frame is not PADDING (or the packet ends) *)
+Theorem C17_padding_roundtrip : forall n, good frame_table not_padding (repeat 0 (S n)) (padding_frame (S n)).
+Proof. intros n. exact (good_padding frame_table n eq_refl). Qed.
+Print Assumptions C17_padding_roundtrip.
+
+(* PING, HANDSHAKE_DONE, PATH_CHALLENGE, PATH_RESPONSE *)
+Theorem C17_fixed_roundtrip :
+  good frame_table anything [1] (mk CPing 1 st0) /\ good frame_table anything [0x1e] (mk CHandshakeDone 0x1e st0) /\
+  (forall d, len d = 8 -> good frame_table anything (0x1a :: d) {| f_cls := CPathChallenge; f_type := 0x1a; f_len := 9; f_ints := []; f_datas := [d] |}) /\
+  (forall d, len d = 8 -> good frame_table anything (0x1b :: d) {| f_cls := CPathResponse; f_type := 0x1b; f_len := 9; f_ints := []; f_datas := [d] |}).
+Proof.
+  exact (conj (good_ping frame_table eq_refl) (conj (good_handshake_done frame_table eq_refl)
+        (conj (fun d => good_path_challenge frame_table d eq_refl) (fun d => good_path_response frame_table d eq_refl)))).
+Qed.
+Print Assumptions C17_fixed_roundtrip.
+
+(* DATAGRAM: with a length field (0x31) anywhere, without one (0x30) as the last frame of the packet *)
+Theorem C17_datagram_roundtrip :
+  (forall v w d, wok w -> 0 <= v < 2 ^ (8 * w - 2) -> len d = v ->
+     good frame_table anything (0x31 :: enc_fs [FV v w; FD d]) (mk CDatagram 0x31 (1 + len (enc_fs [FV v w; FD d]), [v], [d]))) /\
+  (forall d, good frame_table nothing (0x30 :: d) {| f_cls := CDatagram; f_type := 0x30; f_len := 1 + len d; f_ints := []; f_datas := [d] |}).
+Proof.
+  exact (conj (fun v w d => good_datagram_len frame_table 0x31 v w d eq_refl eq_refl) (fun d => good_datagram_nolen frame_table 0x30 d eq_refl eq_refl)).
+Qed.
+Print Assumptions C17_datagram_roundtrip.
+
+(* the field-program classes of C17_frame_roundtrip, in this form *)
+Theorem C17_program_roundtrip : forall c t fs, dispatch frame_table t None = Some c -> prog_class c = true -> fits (prog_of c t) fs 0 ->
+  good frame_table (follow (ends_with_rest (prog_of c t))) (t :: enc_fs fs) (frame_of c t fs).
+Proof. exact (good_prog frame_table). Qed.
+Print Assumptions C17_program_roundtrip.
+
+(* non-vacuity: one payload holding ACK (type 3, two ranges, ECN counts), PADDING x3, PING, PATH_CHALLENGE, CRYPTO, HANDSHAKE_DONE,
+   DATAGRAM with length, STREAM with length, PATH_RESPONSE and a DATAGRAM to the end of the packet meets the hypothesis; its 59 bytes are
+   pinned in C17AllP.all_classes_bytes and replayed on the implementation by the check *)
+Example C17_all_classes_example : goods frame_table ex /\ parse_frames frame_table (concat (map enc_of ex)) = Ok (map snd ex).
+Proof. exact (conj all_classes_good all_classes_parse). Qed.
